@@ -40,17 +40,19 @@ pub struct Sampler<'g> {
     rules: HashMap<&'g str, &'g Rule>,
     stack: Vec<String>,
     budget: usize,
+    /// upper bound (exclusive) on the extra iterations sampled for `e*` / `e+`
+    pub rep_extra: usize,
 }
 
 impl<'g> Sampler<'g> {
     pub fn new(rules: &'g [Rule]) -> Sampler<'g> {
-        Sampler { rules: rules.iter().map(|r| (r.name.as_str(), r)).collect(), stack: vec![], budget: 0 }
+        Sampler { rules: rules.iter().map(|r| (r.name.as_str(), r)).collect(), stack: vec![], budget: 0, rep_extra: 3 }
     }
 
     /// A text the rule can plausibly match (not guaranteed).
     pub fn sample(&mut self, rule: &str, rng: &mut Rng) -> String {
         self.stack.clear();
-        self.budget = 60;
+        self.budget = if self.rep_extra > 3 { 160 } else { 60 };
         let mut out = String::new();
         self.ident(rule, rng, 0, &mut out);
         out
@@ -172,7 +174,7 @@ impl<'g> Sampler<'g> {
             }
             Expr::Rep(i) | Expr::RepOnce(i) => {
                 let min = if matches!(e, Expr::RepOnce(_)) { 1 } else { 0 };
-                let n = min + rng.below(3);
+                let n = min + rng.below(self.rep_extra);
                 for k in 0..n {
                     if k > 0 {
                         self.ws(rng, d, out);
@@ -276,13 +278,15 @@ pub fn inputs_for(rules: &[Rule], rng: &mut Rng, walks: usize, mutants: usize, e
     let mut seen: std::collections::HashSet<String> = out.iter().cloned().collect();
     let mut sampler = Sampler::new(rules);
     let names: Vec<&str> = rules.iter().map(|r| r.name.as_str()).collect();
-    for _ in 0..walks {
+    for w in 0..walks {
+        // every fourth walk is a long one (more repetitions, larger budget)
+        sampler.rep_extra = if w % 4 == 3 { 8 } else { 3 };
         let r = *rng.pick(&names);
         let s = sampler.sample(r, rng);
-        if s.len() <= 64 {
+        if s.len() <= 160 {
             for _ in 0..mutants {
                 let m = mutate(&s, &alpha, rng);
-                if m.len() <= 64 && seen.insert(m.clone()) {
+                if m.len() <= 160 && seen.insert(m.clone()) {
                     out.push(m);
                 }
             }
